@@ -651,7 +651,10 @@ class C16(Family):
             return Verdict(VIOLATES, "implementation returns %s, norm^2 = %s" % (io, q),
                            self.features(case, "not-a-number", impl))
         v = F(io["val"])
-        if v < 0 or abs(v * v - q) > TAU_H2 * max(F(1), q):
+        # conditioning: the generator hides the spectrum behind an integer similarity; the Gramian
+        # solve loses about cond(T)^2 ~ (max |a_ij|)^2 digits relative to the eigenvalue scale
+        amax = max([abs(F(x)) for x in case["A"]] + [F(1)])
+        if v < 0 or abs(v * v - q) > TAU_H2 * max(F(1), amax * amax) * max(F(1), q):
             return Verdict(VIOLATES, "H2 norm %s (square %s), exact square %s" % (float(v), float(v * v), float(q)),
                            self.features(case, "h2-value", impl))
         # arguments passed to the Lyapunov solver
